@@ -40,6 +40,11 @@ PROFILES = {
 }
 
 
+# in how many of twelve ops two sub-ops run concurrently (World.op_par)
+PAR = {'billing': 4, 'counters': 1, 'lifecycle': 1, 'deps': 1, 'groups': 1, 'cancel': 1, 'instances': 2, 'uncommitted': 1}
+
+PAR_PAIRS = {'billing': (['compact', 'compact_by_date'], ['billing', 'complete', 'started', 'deactivate', 'unschedule', 'burst'])}
+
 # in how many of four cases a 'chain' is woven into the history (see strategies)
 CHAINS = {'lifecycle': 1, 'deps': 1, 'counters': 1, 'cancel': 2, 'instances': 1, 'groups': 1, 'billing': 1}
 
@@ -120,7 +125,20 @@ def strategies(profile, max_ops=40):
     # Hypothesis favours the first elements of sampled_from: put the heaviest (most useful) ops first
     for k, w in sorted(W.items(), key=lambda kv: -kv[1]):
         kinds += [k] * w
-    op = st.sampled_from(kinds).flatmap(mk)
+    seq_op = st.sampled_from(kinds).flatmap(mk)
+    # two requests / loop bodies in flight at once (World.op_par): sub-ops are single real calls (no composite harness ops), the
+    # schedule says how often to yield at each SQL statement boundary
+    par_kinds = [k for k in kinds if k not in ('submit', 'late_child', 'batch', 'instance', 'tick', 'daytick', 'burst', 'update')]
+    par_op = st.tuples(st.just('par'), st.sampled_from(par_kinds).flatmap(mk), st.sampled_from(par_kinds).flatmap(mk),
+                       st.lists(st.integers(0, 3), max_size=10)).map(list)
+    pairs = PAR_PAIRS.get(profile)
+    if pairs:
+        # profile-specific pairs that share rows: e.g. a compaction run against the writers of the table it rewrites
+        left = st.sampled_from([k for k in pairs[0] if k in W]).flatmap(mk)
+        right = st.sampled_from([k for k in pairs[1] if k in W]).flatmap(mk)
+        aimed = st.tuples(st.just('par'), left, right, st.lists(st.integers(0, 2), min_size=3, max_size=10)).map(list)
+        par_op = st.one_of(par_op, aimed, aimed, aimed)
+    op = st.one_of(*([seq_op] * (12 - PAR.get(profile, 1)) + [par_op] * PAR.get(profile, 1)))
     prefix = [['instance', 0, True], ['batch', 0, 0]]
     cfg = st.fixed_dictionaries({'n_tokens': st.sampled_from([1, 2, 5]), 'draws': st.lists(st.integers(0, 15), min_size=1, max_size=8)})
     first = st.tuples(st.sampled_from(['submit', 'submit', 'update']), st.just(0), groups, jobs).map(list)
@@ -202,6 +220,8 @@ def classify(w):
         if k in ('commit', 'submit', 'late_children') and ok:
             n_commits += 1
             committed_seen = True
+        if k == 'par' and r.get('schedule_points', 0) >= 2 and not r.get('a', {}).get('skipped') and not r.get('b', {}).get('skipped'):
+            cls.add('two_ops_in_flight')
         if k in ('commit', 'submit', 'late_children') and ok:
             for ps in r.get('parent_states_at_commit', ()):
                 cls.add('later_commit_parent_' + ps)
